@@ -165,7 +165,12 @@ func (c *c17) RunCase(w *core.Worker, idx int, seed uint64, res *core.CaseResult
 			default:
 				target = "nowhere" + strconv.Itoa(rng.Intn(3))
 			}
-			vals[fmt.Sprintf("/peer[name=%s%d][zone=z%d]/via", owner, p, rng.Intn(2))] = target
+			zone := rng.Intn(2)
+			vals[fmt.Sprintf("/peer[name=%s%d][zone=z%d]/via", owner, p, zone)] = target
+			if rng.Chance(1, 3) {
+				// leafref whose key predicate is resolved through the sibling leaf via
+				vals[fmt.Sprintf("/peer[name=%s%d][zone=z%d]/via-unit", owner, p, zone)] = strconv.Itoa(100 + rng.Intn(3))
+			}
 			if rng.Chance(1, 3) {
 				vals[fmt.Sprintf("/peer[name=%s%d][zone=z0]/as", owner, p)] = strconv.Itoa(rng.Intn(100))
 			}
